@@ -14,7 +14,7 @@
 //! Observation, one field, space separated:
 //!   next:  facts  result
 //!   trig:  facts0 result0 (facts_i result_i)*  T  sched0  (fired:sched)*  segs
-//!   facts  = civ ; lnow ; offNow ; mk ; offTrunc ; offRes ; chg ; rciv       (what chrono told the code)
+//!   facts  = civ ; lnow ; offNow ; mk ; offTrunc ; offRes ; chg ; rciv ; tgt ; tbl   (what chrono told the code)
 //!     civ      y,month0,day,ordinal0,isoweek0,weekday(from Monday),hour,minute,second   of `current`
 //!     lnow     local naive seconds of `current` (floor), offNow its UTC offset
 //!     mk       y,mo,d,h,mi,s,kind,a,b : the civil time get_next_time hands to
@@ -22,6 +22,13 @@
 //!              x (the arithmetic before it does not fit the machine types)
 //!     offTrunc UTC offset at that instant when single; offRes, rciv offset and civil fields of
 //!              the result; chg = 1 when the offset changes anywhere between `current` and the result
+//!     tgt      month/year units: y,mo,d,h,mi,s,L — the first of the target month and its naive local
+//!              seconds (`NaiveDate::from_ymd_opt(..).and_hms_opt(0,0,0)`, `-` when chrono has no such
+//!              date); `-` for the other units or when the calendar arithmetic does not fit i64/i32
+//!     tbl      day/week/month/year units: `Local.from_local_datetime` at the target local time and, while
+//!              the answer is None (DST gap), at 15-minute steps after it (at most 200):
+//!              comma list of L:kind:a:b; `~` when there is no representable target
+//!              (tgt and tbl are what the repaired algorithm asks chrono; the current one ignores them)
 //!   result = UTC seconds of the returned instant (its nanoseconds are asserted zero) | P.<class>
 use crate::proto::*;
 use crate::rng::Rng;
@@ -262,6 +269,86 @@ fn offset_changes_between(a: i64, b: i64, off_a: i32) -> bool {
     }
 }
 
+/// What the repaired `get_next_time` asks chrono (computed independently in wide arithmetic):
+/// the target civil date of the calendar units with its naive local seconds, and the resolution
+/// table of the target local time of the day/week/month/year units.
+fn target_facts(now: &DateTime<Local>, unit: &str, n: i64, modulate: bool) -> (String, String) {
+    let n1 = std::cmp::max(n, 1) as i128;
+    let inc = |field: i128| -> i128 { if modulate { n1 - field % n1 } else { n1 } };
+    let fits64 = |x: i128| x >= i64::MIN as i128 && x <= i64::MAX as i128;
+    let midnight = now.naive_local().date().and_hms_opt(0, 0, 0).unwrap().and_utc().timestamp() as i128;
+    let mut tgt = "-".to_owned();
+    let target_local: Option<i128> = match unit {
+        "year" | "month" => {
+            let months = if unit == "year" {
+                let i = inc(now.year() as i128);
+                let y = i + now.year() as i128;
+                if !fits64(i) || !fits64(y) || !fits64(y * 12) { None } else { Some(y * 12) }
+            } else {
+                let i = inc(now.month0() as i128);
+                let m = i + now.year() as i128 * 12 + now.month0() as i128;
+                if !fits64(i) || !fits64(m) { None } else { Some(m) }
+            };
+            match months {
+                None => None,
+                Some(m) => {
+                    let y = m.div_euclid(12);
+                    let mo = (m.rem_euclid(12) + 1) as u32;
+                    if y < i32::MIN as i128 || y > i32::MAX as i128 {
+                        None
+                    } else {
+                        let l = chrono::NaiveDate::from_ymd_opt(y as i32, mo, 1)
+                            .and_then(|d| d.and_hms_opt(0, 0, 0))
+                            .map(|d| d.and_utc().timestamp());
+                        tgt = format!("{},{},1,0,0,0,{}", y, mo, enc_opt(l, |x| x.to_string()));
+                        l.map(|x| x as i128)
+                    }
+                }
+            }
+        }
+        "week" | "day" => {
+            let days = if unit == "week" {
+                let w = inc(now.iso_week().week0() as i128);
+                if !fits64(w) || !fits64(w * 7) { None } else { Some(w * 7 - now.weekday().num_days_from_monday() as i128) }
+            } else {
+                let d = inc(now.ordinal0() as i128);
+                if !fits64(d) { None } else { Some(d) }
+            };
+            match days {
+                Some(d) if fits64(d * 86400) && (d * 86400).abs() <= (i64::MAX / 1000) as i128 => Some(midnight + d * 86400),
+                _ => None,
+            }
+        }
+        _ => None,
+    };
+    let mut rows = Vec::new();
+    if let Some(l0) = target_local {
+        let mut l = l0;
+        for _ in 0..200 {
+            let naive = if fits64(l) { DateTime::from_timestamp(l as i64, 0).map(|d| d.naive_utc()) } else { None };
+            let naive = match naive {
+                Some(nv) => nv,
+                None => break,
+            };
+            match Local.from_local_datetime(&naive) {
+                LocalResult::Single(t) => {
+                    rows.push(format!("{}:s:{}:0", l, t.timestamp()));
+                    break;
+                }
+                LocalResult::Ambiguous(a, b) => {
+                    rows.push(format!("{}:a:{}:{}", l, a.timestamp(), b.timestamp()));
+                    break;
+                }
+                LocalResult::None => {
+                    rows.push(format!("{}:n:0:0", l));
+                    l += 900;
+                }
+            }
+        }
+    }
+    (tgt, enc_list(",", &rows))
+}
+
 /// facts + result of the pure schedule computation at one instant
 fn block(now: &DateTime<Local>, unit: &str, n: i64, modulate: bool) -> (String, String) {
     let interval = interval_of(unit, n).unwrap();
@@ -320,8 +407,9 @@ fn block(now: &DateTime<Local>, unit: &str, n: i64, modulate: bool) -> (String, 
         }
         Err(msg) => (format!("P.{}", panic_class(&msg)), "-".to_owned(), "-".to_owned(), "-".to_owned()),
     };
+    let (tgt, tbl) = guarded(move || target_facts(&cur, unit, n, modulate)).unwrap_or(("?".to_owned(), "?".to_owned()));
     (
-        format!("{};{};{};{};{};{};{};{}", civ, lnow, off_now, mk, off_trunc, off_res, chg, rciv),
+        format!("{};{};{};{};{};{};{};{};{};{}", civ, lnow, off_now, mk, off_trunc, off_res, chg, rciv, tgt, tbl),
         result,
     )
 }
